@@ -194,8 +194,10 @@ class _Quadrature(torch.autograd.Function):
                 dfdts = torch.autograd.grad(f, tensor_params,
                                             grad_outputs=grad_ys,
                                             retain_graph=True,
+                                            allow_unused=True,
                                             create_graph=torch.is_grad_enabled())
-                return dfdts
+                # a tensor that does not reach the integrand has a zero gradient
+                return tuple(torch.zeros_like(p) if g is None else g for g, p in zip(dfdts, tensor_params))
 
             # reconstruct grad_params
             # listing tensor_params in the params of quad to make sure it gets
